@@ -83,6 +83,26 @@ def run(ctx, model_ok, deep=False):
                         ctx.violation("correspondence:cli-exit", "exit status %d for %d failures, model says %s" % (rc, nbad, m), no_input=True)
                 if len(samples) < 3:
                     samples.append({"tool": "jwt-verify", "bad": nbad, "good": ngood, "mode": mode, "status": rc})
+        # ---------------- token length: arguments and standard input must agree -----------------------
+        for size in ((100, 4000, 8150, 8185, 8200, 12000, 16384, 70000) if tier == "quick" else (100, 1000, 4000, 8100, 8150, 8180, 8185, 8190, 8195, 8200, 9000, 12000, 16384, 32768, 70000, 300000)):
+            m2 = S.seg({"alg": "HS256"}) + b"." + S.seg({"sub": "cli", "pad": "x" * size})
+            lgood = (m2 + b"." + pool.sign("oct32", "HS256", m2)).decode()
+            lbad = lgood[:-2] + ("AA" if not lgood.endswith("AA") else "BB")
+            lforged = (m2 + b"." + S.hs_sig(1, b"not-the-key-not-the-key-not-the-key", m2)).decode()
+            for toks, nbad in (([lgood], 0), ([lbad], 1), ([lforged], 1), ([good, lgood, good], 0), ([good, lbad, good], 1), ([lgood, lforged, lgood, bad], 2)):
+                for mode in ("args", "stdin", "stdin-no-final-newline"):
+                    if mode == "args":
+                        if sum(len(t) for t in toks) > 120000:
+                            continue
+                        rc, out, err = tool(ctx, "jwt-verify", ["-q", "-k", kf] + toks)
+                    else:
+                        rc, out, err = tool(ctx, "jwt-verify", ["-q", "-k", kf, "-"], stdin=("\n".join(toks) + ("\n" if mode == "stdin" else "")).encode())
+                    ev += 1
+                    distinct.add(("len", size > 8000, nbad, rc == 0, mode))
+                    if (rc == 0) != (nbad == 0):
+                        V("falsifier:cli-exit", "jwt-verify given %d failing and %d good tokens, one of them %d characters long (%s), exited with status %d" % (
+                            nbad, len(toks) - nbad, len(lgood), mode, rc), ["# jwt-verify -q -k oct.json " + ("- < tokens" if mode != "args" else "<tokens>"),
+                                                                          "# token lengths: " + " ".join(str(len(t)) for t in toks)])
         # ---------------- option spellings ----------------------------------------------------------
         kf_noalg = os.path.join(d, "oct_noalg.json")
         json.dump(oct_.jwk(), open(kf_noalg, "w"))
